@@ -7,7 +7,7 @@ package rueidislimiter
 // Workload: 2-8 tasks call Allow / AllowN(n in 0..limit+2) / Check on 1-3 limiter instances (each with its own
 // rueidis client and connection(s), normally the same key prefix, so identifiers are shared between instances),
 // 1-3 identifiers, limits 1..20, windows 50 ms..5 s of fake time crossed by scheduler ticks, optional per-call
-// WithCustomRateLimit, ghost SCRIPT FLUSH, and per variant: connection faults / node restarts ("faults"), context
+// WithCustomRateLimit, ghost SCRIPT FLUSH, and per variant: connection faults ("faults"), context
 // deadlines ("deadline"), a server clock offset ("skew"). The real rateLimitScript is interpreted by the model.
 //
 // Oracle (only what the property text states):
@@ -101,27 +101,39 @@ func genLimiter(seed uint64, tier, variant string) any {
 		p.Limit = 1 + r.IntN(4) // small limits fill up quickly
 	}
 	p.WindowMs = pick(r, limWindows...)
-	for i, n := 0, 1+r.IntN(3); i < n; i++ {
+	ntasks := 2 + r.IntN(7)
+	ninst := 1 + r.IntN(3)
+	if variant == "faults" {
+		// one limiter instance (client, connection) per task: a broken connection then has at most one caller in flight.
+		// With several, rueidis fails them from the clean-up loop of the dead pipe, which spins with Gosched (under the
+		// simulator: polls once per fake millisecond); who is failed before the first poll is the Go runtime's choice.
+		ninst = ntasks
+	}
+	for i := 0; i < ninst; i++ {
 		pre := ""
 		if i > 0 && r.IntN(5) == 0 {
 			pre = "other" // an instance with its own key space: must not share counters with the others
 		}
 		p.Prefixes = append(p.Prefixes, pre)
 	}
-	p.Multiplex = pick(r, -1, -1, 1)
+	// one connection per client: with several, rueidis picks the wire of every command with util.FastRand, whose seeded
+	// stand-in hands out values in call order, and two callers answered by one delivery (NOSCRIPT, then EVAL) race for it
+	p.Multiplex = -1
 	w := p.WindowMs
 	p.TickMs = []int{1, max(1, w/10), w / 2, w/2 + 1, w, w + 1} // w and w/2 put calls exactly on window boundaries
 	p.Sim = SimSpec{CutProb: pick(r, 0.0, 0.3), MaxSteps: 8000, TickWeight: pick(r, 0.3, 0.8, 2.0)}
 	ids := []string{"u1", "u2", "u3"}[:1+r.IntN(3)]
 	custom := r.IntN(3) == 0
 	perKey := map[string]int{}
-	ntasks := 2 + r.IntN(7)
 	for ti := 0; ti < ntasks; ti++ {
 		var calls []LimCall
 		lim := r.IntN(len(p.Prefixes))
 		for ci, n := 0, 2+r.IntN(7); ci < n; ci++ {
 			if r.IntN(4) == 0 {
 				lim = r.IntN(len(p.Prefixes))
+			}
+			if variant == "faults" {
+				lim = ti
 			}
 			c := LimCall{Lim: lim, ID: pick(r, ids...)}
 			switch x := r.IntN(10); {
@@ -162,7 +174,7 @@ func genLimiter(seed uint64, tier, variant string) any {
 	switch variant {
 	case "faults":
 		for i, n := 0, 1+r.IntN(3); i < n; i++ {
-			p.Faults = append(p.Faults, LimFault{Kind: pick(r, "reset", "eof", "reset-after-exec", "eof-mid-reply", "werr", "stall", "node-restart"),
+			p.Faults = append(p.Faults, LimFault{Kind: pick(r, "reset", "eof", "reset-after-exec", "eof-mid-reply", "stall"),
 				AtStep: r.IntN(250), Pick: r.IntN(4), DurMs: pick(r, 20, w/2+1, w+5, 2*w+1500), Arg: r.IntN(100), NeedInflight: r.IntN(4) != 0})
 		}
 	case "deadline":
@@ -287,12 +299,65 @@ func execLimiter(t *testing.T, plan any, out *Outcome) {
 		s.Ghosts = append(s.Ghosts, &sched.GhostOp{Name: "cmd " + strings.Join(g.Argv, " "), MinStep: base + g.MinStep, Do: func(s *sched.Sim) { s.W.Ghost(e.addr, g.Argv...) }})
 	}
 	for _, f := range p.Faults {
-		s.Faults = append(s.Faults, &sched.Fault{Kind: f.Kind, AtStep: base + f.AtStep, NeedInflight: f.NeedInflight, Pick: f.Pick, Dur: time.Duration(f.DurMs) * time.Millisecond, Arg: f.Arg})
+		limAddFault(s, f, base)
 	}
 	e.runTasks()
+	// The log hash covers the workload: everything the oracle reads exists at this point. Closing up to eight clients
+	// afterwards is not part of it: Close waits for the pipe's background goroutine, whose clean-up loop polls once per
+	// fake millisecond under the simulator, and whether a Close needs such a poll depends on the Go runtime.
+	workloadHash := s.LogHash()
 	e.closeAll(nil)
 	e.finish()
+	out.LogHash = workloadHash
 	checkLimiter(e, p)
+}
+
+// limAddFault plans a connection fault as an environment action that picks its victim among connections that have
+// finished their handshake and carried workload commands. (sched.Fault would also strike a connection whose HELLO is
+// still in flight; how rueidis then tears that half-made connection down - directly, or after its clean-up loop has
+// slept - depends on which of its goroutines sees the error first, and the event log with it.)
+func limAddFault(s *sched.Sim, f LimFault, base int) {
+	tries := 0
+	var g *sched.GhostOp
+	g = &sched.GhostOp{Name: "fault " + f.Kind, MinStep: base + f.AtStep, Do: func(s *sched.Sim) {
+		var el []*sched.Link
+		for _, l := range s.LiveLinks() {
+			if l.S.UserCmds == 0 || l.CutAfter >= 0 {
+				continue
+			}
+			if f.NeedInflight && l.C.PendingWritten() == 0 && len(l.S.Out) == 0 && l.S.PendingInput() == 0 {
+				continue
+			}
+			el = append(el, l)
+		}
+		if len(el) == 0 {
+			if tries++; tries < 40 {
+				g.Done, g.MinStep = false, s.Step+3 // nothing to strike yet: try again a little later
+			}
+			return
+		}
+		l := el[f.Pick%len(el)]
+		s.Stats["fault."+f.Kind]++
+		s.Logf("  fault %s c%d", f.Kind, l.ID)
+		switch f.Kind {
+		case "reset", "eof":
+			s.BreakLink(l, f.Kind, false)
+		case "reset-after-exec":
+			s.BreakLink(l, "reset", true)
+		case "eof-mid-reply":
+			if len(l.S.Out) < 2 {
+				s.BreakLink(l, "eof", false)
+			} else {
+				l.CutAfter, l.CutKind = 1+f.Arg%(len(l.S.Out)-1), "eof"
+			}
+		case "stall":
+			until := time.Now().Add(time.Duration(f.DurMs) * time.Millisecond)
+			l.StallS2C, l.StallC2S = until, until
+		default:
+			panic("limiter: unknown fault kind " + f.Kind)
+		}
+	}}
+	s.Ghosts = append(s.Ghosts, g)
 }
 
 // ---------------------------------------------------------------------------------------------------- oracle
